@@ -14,6 +14,7 @@ import DfolsVerif.Proofs.BookAccB
 import DfolsVerif.Proofs.Radius
 import DfolsVerif.Gen.KernelFns
 import DfolsVerif.Gen.ModelDecisions
+import DfolsVerif.Proofs.MainLoopPaths
 
 namespace Dfols
 namespace C04
@@ -150,6 +151,27 @@ example : (accept false (exTrace.take 12 ++
 example : (accept false (exTrace.take 12 ++
     [.evb 1 10, .obj 4 4 4 10 (.num 60) 1, .eve 1 none .other (.num 60) (.num 0) false,
      .chg 1 4 true (.num 60) 4 1])).toOption.isNone = true := by decide
+
+/-! ### layer G: no evaluated point is dropped, at the source -/
+
+/-- **every point evaluated in the main loop is handed to the model**: for EVERY execution of the loop body (skeleton translated
+    from solver.py on every run), with the monitor `MainLoopPaths.mStore`: there is never a second `evaluate_objective` while an
+    evaluated point waits to be stored, and at the end of the body (continue, break or raise) the evaluated point has gone to
+    `change_point` or `save_point` — unless the path went through the NaN branch, through `num_samples_run > 0` being false
+    (nothing was evaluated), or through the failure branch directly after the second `choose_point_to_replace` (its first call,
+    on the same point set, succeeded).  The pinned tree dropped the trial point on the exit after `calculate_ratio`. -/
+theorem C04_src_no_point_dropped {tr : List String} {e : Skel.Ending} (hx : Skel.Exec Gen.mainLoop tr e) :
+    (MainLoopPaths.mStore.run ⟨false, false, false, false⟩ tr).dropped = false ∧
+    ((MainLoopPaths.mStore.run ⟨false, false, false, false⟩ tr).pend = true →
+     (MainLoopPaths.mStore.run ⟨false, false, false, false⟩ tr).excused = true) :=
+  MainLoopPaths.store_trace hx
+
+/-- the monitor on the pinned shape of that exit: evaluation, ratio, exit taken without `save_point` — pending and not excused -/
+example : (MainLoopPaths.mStore.run ⟨false, false, false, false⟩
+    ["eval", "F:np.any(np.isnan(rvec_list))", "F:exit_info is not None", "ratio", "T:exit_info is not None", "nruns"]).pend = true ∧
+    (MainLoopPaths.mStore.run ⟨false, false, false, false⟩
+    ["eval", "F:np.any(np.isnan(rvec_list))", "F:exit_info is not None", "ratio", "T:exit_info is not None", "nruns"]).excused = false := by
+  decide
 
 end C04
 end Dfols
